@@ -351,8 +351,11 @@ theorem dispatch_restores {c : Cfg} {g : G} (hw : WFCfg c) (hr : Reach c g) (req
     have ha : a ≠ 0 := by omega
     have hsub : sub64 (bottom c) (c.base + c.narena - g.s.pstack) = g.s.pstack := by
       rw [bottom_eq hw, sub64_eq (by omega) (by omega)]; omega
-    simp only [dispatch, h, hp, freeStack, Bool.false_eq_true, ↓reduceIte, h2, ha, h3, hsub, h1]
-    trace_state
+    unfold dispatch
+    rw [h]
+    simp only []
+    rw [hp]
+    simp only [freeStack, Bool.false_eq_true, ↓reduceIte, h2, ha, h3, hsub, h1]
     simp
 
 /-! ### The guard the code lacks: wrap-around witnesses -/
